@@ -8,6 +8,179 @@ import tomo_setups as ts
 from quara.protocol.qtomography.standard.linear_estimator import LinearEstimator
 from quara.simulation import consistency_check
 
+import ast
+import os
+import common
+import pymat2lean as P2L
+
+TOMO = "quara/protocol/qtomography/standard/"
+
+
+def translate(ctx):
+    """regenerate lean/QGen/C09.lean from the source of LinearEstimator.calc_estimate_sequence / calc_estimate,
+    StandardQTomography.is_fullrank_matA and StandardQTomographyEstimationResult.estimated_var / estimated_qoperation:
+    the matrix expressions, the tuple component that is read from each (count, distribution) pair, the joining call,
+    the guard expression and the sequence indices.  Raises on source it cannot translate."""
+    rel = TOMO + "linear_estimator.py"
+    tree = P2L.load(os.path.join(common.REPO, rel))
+    cls = P2L.find_class(tree, "LinearEstimator", rel)
+    fn = P2L.find_func(cls, "calc_estimate_sequence", rel)
+    body = P2L.strip_doc(fn.body)
+    # --- guard: first statement `if not qtomography.is_fullrank_matA(): raise Exception`
+    g = body[0]
+    if not (isinstance(g, ast.If) and ast.unparse(g.test) == "not qtomography.is_fullrank_matA()" and len(g.body) == 1
+            and isinstance(g.body[0], ast.Raise) and not g.orelse):
+        P2L.fail(rel, g, "expected the full-rank guard `if not qtomography.is_fullrank_matA(): raise …` as first statement")
+    env = {}
+    loop = None
+    top = {}
+    for st in body[1:]:
+        if isinstance(st, ast.Assign) and len(st.targets) == 1 and isinstance(st.targets[0], ast.Name):
+            top[st.targets[0].id] = st
+        elif isinstance(st, ast.For):
+            if loop is not None:
+                P2L.fail(rel, st, "more than one loop")
+            loop = st
+    for name, call, ty in (("A", "qtomography.calc_matA()", ("mat", "m", "n")), ("b", "qtomography.calc_vecB()", ("vec", "m"))):
+        if name not in top or ast.unparse(top[name].value) != call:
+            P2L.fail(rel, top.get(name, fn), f"expected `{name} = {call}` before the loop")
+        env[name] = (name, ty)
+    if "A_ddag" not in top:
+        P2L.fail(rel, fn, "expected `A_ddag = …` before the loop (computed once for all datasets)")
+    ddag, ddag_ty = P2L.mat_expr(top["A_ddag"].value, env, rel)
+    ddag_line = top["A_ddag"].lineno
+    if loop is None or ast.unparse(loop.iter) != "empi_dists_sequence" or not isinstance(loop.target, ast.Name):
+        P2L.fail(rel, loop or fn, "expected `for <x> in empi_dists_sequence:`")
+    item = loop.target.id
+    inner = {}
+    appended = False
+    for st in loop.body:
+        if isinstance(st, ast.Assign) and len(st.targets) == 1 and isinstance(st.targets[0], ast.Name):
+            if st.targets[0].id in ("A", "b", "A_ddag"):
+                P2L.fail(rel, st, "forward model / pseudo-inverse reassigned inside the loop")
+            inner[st.targets[0].id] = st
+        elif isinstance(st, ast.Expr) and ast.unparse(st.value) == "estimate_sequence.append(v)":
+            appended = True
+        elif isinstance(st, ast.If) and "is_computation_time_required" in ast.unparse(st.test):
+            continue
+        elif isinstance(st, ast.Expr) and isinstance(st.value, ast.Constant):
+            continue
+        else:
+            P2L.fail(rel, st, "unexpected statement in the estimation loop")
+    if not appended:
+        P2L.fail(rel, loop, "expected `estimate_sequence.append(v)` in the loop")
+    # empi_dists_tmp = [e[k] for e in <item>]
+    lc = inner.get("empi_dists_tmp")
+    if lc is None or not isinstance(lc.value, ast.ListComp) or len(lc.value.generators) != 1 \
+            or ast.unparse(lc.value.generators[0].iter) != item or lc.value.generators[0].ifs \
+            or not isinstance(lc.value.elt, ast.Subscript) \
+            or ast.unparse(lc.value.elt.value) != ast.unparse(lc.value.generators[0].target):
+        P2L.fail(rel, lc or loop, "expected `empi_dists_tmp = [e[k] for e in <dataset>]`")
+    comp = P2L.subscript_index(lc.value.elt, rel)
+    if comp not in (0, 1):
+        P2L.fail(rel, lc, "component index of the (count, distribution) pair must be 0 or 1")
+    fj = inner.get("f")
+    if fj is None or ast.unparse(fj.value) != "np.concatenate(empi_dists_tmp)":
+        P2L.fail(rel, fj or loop, "expected `f = np.concatenate(empi_dists_tmp)`")
+    env2 = dict(env)
+    env2["A_ddag"] = ("A_ddag", ddag_ty)
+    env2["f"] = ("f", ("vec", "m"))
+    if "v" not in inner:
+        P2L.fail(rel, loop, "expected `v = …` in the loop")
+    vexp, v_ty = P2L.mat_expr(inner["v"].value, env2, rel)
+    # result = LinearEstimationResult(estimate_sequence, …)
+    res = top.get("result")
+    if res is None or not isinstance(res.value, ast.Call) or not res.value.args \
+            or ast.unparse(res.value.args[0]) != "estimate_sequence":
+        P2L.fail(rel, res or fn, "expected `result = LinearEstimationResult(estimate_sequence, …)`")
+    # calc_estimate delegates to a sequence of one
+    fn1 = P2L.find_func(cls, "calc_estimate", rel)
+    calls = [n for n in ast.walk(fn1) if isinstance(n, ast.Call) and ast.unparse(n.func) == "self.calc_estimate_sequence"]
+    if len(calls) != 1 or len(calls[0].args) < 2 or ast.unparse(calls[0].args[1]) != "[empi_dists]":
+        P2L.fail(rel, fn1, "expected calc_estimate to call self.calc_estimate_sequence(qtomography, [empi_dists], …)")
+    # --- the guard itself
+    rel2 = TOMO + "standard_qtomography.py"
+    t2 = P2L.load(os.path.join(common.REPO, rel2))
+    gf = P2L.find_func(P2L.find_class(t2, "StandardQTomography", rel2), "is_fullrank_matA", rel2)
+    gb = P2L.strip_doc(gf.body)
+    names = {}
+    ret = None
+    for st in gb:
+        if isinstance(st, ast.Assign) and len(st.targets) == 1 and isinstance(st.targets[0], ast.Name):
+            names[st.targets[0].id] = st.value
+        elif isinstance(st, ast.Return):
+            ret = st.value
+        else:
+            P2L.fail(rel2, st, "unexpected statement in is_fullrank_matA")
+    if ast.unparse(names.get("matA", ast.Constant(0))) != "self.calc_matA()" or \
+            ast.unparse(names.get("rank", ast.Constant(0))) != "np.linalg.matrix_rank(matA)" or len(names) != 3:
+        P2L.fail(rel2, gf, "expected matA = self.calc_matA(); rank = np.linalg.matrix_rank(matA); size = …")
+    sz = names.get("size")
+    if not (isinstance(sz, ast.Call) and isinstance(sz.func, ast.Name) and sz.func.id in ("min", "max") and len(sz.args) == 1
+            and ast.unparse(sz.args[0]) == "matA.shape"):
+        if isinstance(sz, ast.Subscript) and ast.unparse(sz.value) == "matA.shape":
+            size_lean = {0: "m", 1: "n"}.get(P2L.subscript_index(sz, rel2))
+            if size_lean is None:
+                P2L.fail(rel2, sz, "unsupported size expression")
+        else:
+            P2L.fail(rel2, sz or gf, "unsupported size expression")
+    else:
+        size_lean = f"({sz.func.id} m n)"
+    if not (isinstance(ret, ast.Compare) and len(ret.ops) == 1 and isinstance(ret.ops[0], ast.Eq)
+            and {ast.unparse(ret.left), ast.unparse(ret.comparators[0])} == {"size", "rank"}):
+        P2L.fail(rel2, ret or gf, "expected `return size == rank`")
+    # --- estimated_var / estimated_qoperation indices
+    rel3 = TOMO + "standard_qtomography_estimator.py"
+    t3 = P2L.load(os.path.join(common.REPO, rel3))
+    rc = P2L.find_class(t3, "StandardQTomographyEstimationResult", rel3)
+    ev = P2L.find_func(rc, "estimated_var", rel3)
+    evr = [n for n in ast.walk(ev) if isinstance(n, ast.Return)][0].value
+    if not (isinstance(evr, ast.Subscript) and ast.unparse(evr.value) == "self._estimated_var_sequence"):
+        P2L.fail(rel3, evr, "expected `return self._estimated_var_sequence[k]`")
+    ev_idx = P2L.subscript_index(evr, rel3)
+    eq = P2L.find_func(rc, "estimated_qoperation", rel3)
+    eqa = [n for n in ast.walk(eq) if isinstance(n, ast.Assign) and ast.unparse(n.targets[0]) == "var"]
+    if len(eqa) != 1 or not (isinstance(eqa[0].value, ast.Subscript) and ast.unparse(eqa[0].value.value) == "self._estimated_var_sequence"):
+        P2L.fail(rel3, eq, "expected `var = self._estimated_var_sequence[k]`")
+    eq_idx = P2L.subscript_index(eqa[0].value, rel3)
+    if ev_idx < 0 or eq_idx < 0:
+        P2L.fail(rel3, ev, "negative sequence index")
+    L = P2L.lean_type
+    text = f"""import QModel.C09
+/-! GENERATED on every run by harness/c09.py:translate (harness/pymat2lean.py) from the Python sources of quara — do not edit. -/
+namespace QGen.C09
+
+/-- {rel}:{ddag_line} `A_ddag = {ast.unparse(top['A_ddag'].value)}` (computed once, before the loop over datasets);
+`inv` stands for `np.linalg.inv` -/
+def A_ddag {{K : Type}} [Add K] [Mul K] [Zero K] {{m n : Nat}} (inv : QM.Mat K n n → QM.Mat K n n) (A : QM.Mat K m n) :
+    {L(ddag_ty)} :=
+  {ddag}
+
+/-- {rel}:{inner['v'].lineno} `v = {ast.unparse(inner['v'].value)}` -/
+def v {{K : Type}} [Add K] [Mul K] [Sub K] [Zero K] {{m n : Nat}} (A_ddag : {L(ddag_ty)}) (f b : QM.Vec K m) : {L(v_ty)} :=
+  {vexp}
+
+/-- {rel}:{lc.lineno} `{ast.unparse(lc.value)}`: the component read from each `(count, distribution)` pair -/
+def data_of {{K : Type}} (e : Nat × List K) : List K := e.{comp + 1}
+
+/-- {rel}:{fj.lineno} `f = np.concatenate(empi_dists_tmp)` -/
+def join {{K : Type}} (arrs : List (List K)) : Except QM.C09.Err (List K) := QM.C09.concatArrays arrs
+
+/-- {rel2}:{gf.lineno} `is_fullrank_matA`: `size = {ast.unparse(sz)}`, `return {ast.unparse(ret)}`; `m n` = `matA.shape` -/
+def is_fullrank (m n rank : Nat) : Bool := {size_lean} == rank
+
+/-- {rel3}:{ev.lineno} `estimated_var` = `_estimated_var_sequence[{ev_idx}]` -/
+def estimated_var_index : Nat := {ev_idx}
+
+/-- {rel3}:{eq.lineno} `estimated_qoperation` is generated from `_estimated_var_sequence[{eq_idx}]` -/
+def estimated_qoperation_index : Nat := {eq_idx}
+
+end QGen.C09
+"""
+    P2L.write_if_changed(os.path.join(common.LEAN, "QGen", "C09.lean"), text)
+    return []
+
+
 COND_MAX = 1.0e3          # generators keep cond(A) below this (cond(AᵀA) ≤ 1e6), DESIGN §4-C09
 KNOWN_MIXED = "C09/calc_estimate/mixed-outcome-counts/raises"
 
@@ -211,6 +384,14 @@ def correspondence(ctx):
             fs = [np.concatenate([d for _, d in ds]) for ds in seq]
             i_est = drv.ask("estfast", mm, n, mat_text(G), Atxt, btxt, vecs_text(fs))
             pend.append(("estfast", (spec, sched, labels), impl, i_est))
+        if impl[0] == "ok" and n <= 40:
+            # estimated_qoperation_sequence at the object level (generate_from_var of the template)
+            rs = LinearEstimator().calc_estimate_sequence(S.qt, seq[:3])
+            objs = [np.array(o.to_stacked_vector(), dtype=np.float64) for o in rs.estimated_qoperation_sequence]
+            dim = S.c_sys.dim
+            i_obj = drv.ask("estobj", S.kind, "1" if S.flag else "0", q(np.sqrt(dim)), dim * dim, S.m, mm, n, rank,
+                            mat_text(G), Atxt, btxt, seq_text(seq[:3]))
+            pend.append(("estobj", (spec, sched, labels[:3]), ("ok", objs), i_obj))
         if impl[0] == "ok":
             fs = [np.concatenate([d for _, d in ds]) for ds in seq]
             scale = max(1.0, max(np.abs(f).max() for f in fs)) * max(1.0, np.linalg.norm(A, 2) ** 2)
